@@ -350,16 +350,44 @@ def LAM_oneline(a, *args, **kwargs): return ADV_CALLEE(*args, **kwargs)
 if True:
     def LAM_indented(a, *args, **kwargs):
         return ADV_CALLEE(*args, **kwargs)
+class MTH_cls(object):
+    def target(self, x, y=2, *, z=3):
+        return 0
+    def m_posonly_self(self, /, a, *args, **kwargs):
+        return self.target(*args, **kwargs)
+    def m_posonly_two(self, a, /, b, *args, **kwargs):
+        return self.target(*args, **kwargs)
+    def m_plain(self, a, *args, **kwargs):
+        return self.target(*args, **kwargs)
+    @classmethod
+    def m_cls(cls, a, *args, **kwargs):
+        return ADV_CALLEE(*args, **kwargs)
+    @staticmethod
+    def m_static(a, *args, **kwargs):
+        return ADV_CALLEE(*args, **kwargs)
+    def m_kwonly(self, *args, a, **kwargs):
+        return self.target(*args, **kwargs)
+MTH_inst = MTH_cls()
+MTH_bound_posonly_self = MTH_inst.m_posonly_self
+MTH_bound_posonly_two = MTH_inst.m_posonly_two
+MTH_bound_plain = MTH_inst.m_plain
+MTH_bound_cls = MTH_inst.m_cls
+MTH_cls_cls = MTH_cls.m_cls
+MTH_static = MTH_inst.m_static
+MTH_bound_kwonly = MTH_inst.m_kwonly
+MTH_unbound_plain = MTH_cls.m_plain
 '''
 LAMBDA_NAMES = ('LAM_assign', 'LAM_wraps', 'LAM_dict', 'LAM_returned', 'LAM_paren', 'LAM_continuation', 'LAM_two_on_a_line',
-                'LAM_method', 'LAM_unbound', 'LAM_decorated_def', 'LAM_partial_of_lambda', 'LAM_oneline', 'LAM_indented')
+                'LAM_method', 'LAM_unbound', 'LAM_decorated_def', 'LAM_partial_of_lambda', 'LAM_oneline', 'LAM_indented',
+                'MTH_bound_posonly_self', 'MTH_bound_posonly_two', 'MTH_bound_plain', 'MTH_bound_cls', 'MTH_cls_cls', 'MTH_static',
+                'MTH_bound_kwonly', 'MTH_unbound_plain')
 
 
 def check_adversarial(st):
     progs_ = adversarial_programs()
     batch = progs.Batch()
     batch.add('G_ADV = 0\n\ndef ADV_CALLEE(x, y=2, *, z=3):\n    return 0\n', 2)
-    batch.add(LAMBDA_FORMS, 20)
+    batch.add(LAMBDA_FORMS, 40)
     ok = []
     for i, name, pos, flavour, src in progs_:
         try:
